@@ -146,7 +146,14 @@ def build(case):
     objs = [R.state(system, k) for k in case["kets"]]
     rhos = [R.proj(o) if o.ndim == 1 else R.herm(o) for o in objs]
     n = len(objs)
-    w = catalog.prior(n, case["prior"]) if case["prior"] != "none" else np.ones(n) / n
+    if case["prior"] in ("zero0", "zeromid"):
+        # one state that is never prepared (prior exactly 0), first or in the middle - added after seeded change C12-9, which dropped such
+        # states from the list but kept indexing the unfiltered prior
+        w = np.arange(1, n + 1, dtype=float)
+        w[0 if case["prior"] == "zero0" else n // 2] = 0.0
+        w = w / w.sum()
+    else:
+        w = catalog.prior(n, case["prior"]) if case["prior"] != "none" else np.ones(n) / n
     return objs, rhos, w, da, db
 
 
@@ -344,6 +351,8 @@ def primal_dual_cases(tier, seed):
                 continue
             yield {"sys": system, "kets": sub, "prior": "g0" if crc(sub) % 16 < 8 else "uniform", "form": "col" if crc(sub) % 3 else "dm",
                    "sub": crc(sub) % 2, "pform": "list"}
+            if crc(sub) % 16 == 0:
+                yield {"sys": system, "kets": sub, "prior": "zero0", "form": "col", "sub": crc(sub) % 2, "pform": "list"}
         if tier == "thorough":
             for sub in subsets(system, (4,)):
                 if crc(sub) % 6:
@@ -593,6 +602,9 @@ def hierarchy_cases(tier, seed):
                 continue
             yield {"sys": system, "kets": sub, "prior": ("g0", "ramp", "uniform")[crc(sub) % 3], "form": ("col", "dm")[crc(sub) % 2], "dim": "list", "level": 1,
                    "pform": "list"}
+            if crc(sub) % (32 if tier == "quick" else 4) == 0:
+                for zp in ("zero0", "zeromid"):
+                    yield {"sys": system, "kets": sub, "prior": zp, "form": "col", "dim": "list", "level": 1, "pform": "list"}
         if tier == "thorough":
             for sub in subsets(system, (4,)):
                 if crc(sub) % 12:
